@@ -14,6 +14,8 @@ CONSTANTS
   none = none
   Latitude = {"PutBadRefused", "PutBadStored", "AuthzRefused", "AuthzAsAuthcid"}
   Scope = "full"
+  Profile = "dict"
+  Open = {}
 INVARIANT TypeOK
 INVARIANT AtMostOneActive
 INVARIANT ActiveIsStored
